@@ -372,6 +372,8 @@ def oracle_trace(ops, obs, pid='C03', kind=None):
             if first == 'ok' and len(parts) > 1:
                 hist.setdefault(oid, []).append((tid, None if parts[1] == 'none' else parts[1]))
                 multitids.add(tid)
+        elif o == 'undotxn' and first == 'skipped':
+            pass            # the transaction did not write exactly this object: op not defined, not executed
         elif o == 'undotxn':
             # expectation from the history tracked so far (real outcomes only)
             tid, oid, undone = int(tk[1]), int(tk[2]), int(tk[3])
@@ -503,6 +505,21 @@ def gen_storage_case(rng, kind, size):
             if r < 0.45:
                 oid = rng.choice(oids)
                 view[w][oid] = cur(oid)
+            elif holder[0] is None and pending[0] is None and 'file' in kind and r < 0.50:
+                # clean close + reopen from the saved index; nobody holds the lock
+                ops.append('reopen')
+            elif holder[0] is None and pending[0] is None and kind == 'file' and r < 0.56:
+                # undo of a committed transaction of one object (skipped by both sides unless it wrote
+                # exactly that object): mostly the current revision -> a back-pointer record without data
+                cands = [o for o in oids if len(sim.get(o, [])) >= 2 and all(v is not None for _, v in sim[o])]
+                if cands:
+                    oid = rng.choice(cands)
+                    h = sim[oid]
+                    undone = h[-1][0] if rng.random() < 0.7 else rng.choice(h[1:])[0]
+                    tid[0] += rng.choice([1, 3])
+                    ops.append('undotxn %d %d %d' % (tid[0], oid, undone))
+                    if undone == h[-1][0]:
+                        h.append((tid[0], h[-2][1]))
             elif holder[0] is None:
                 tid[0] += rng.choice([1, 1, 3, 10])
                 ops.append('begin %d %d' % (w, tid[0]))
